@@ -58,6 +58,12 @@ def instances(tier):
             for dense in (True, False):
                 out.append(dict(id="event-fault-%s-k%02d-%s" % (fam, k, "dense" if dense else "nodense"), family=fam, N=2, where="event", k=k, exc="RuntimeError",
                                 dense=dense, budget=b))
+    # the interrupt arrives while an event function is being evaluated (Ctrl-C during the event search): it propagates as itself and the same
+    # prefix / dense-output / resume guarantees hold
+    for k in ((2, 10) if quick else (1, 2, 5, 9, 10, 14)):
+        for dense in (True, False):
+            out.append(dict(id="event-interrupt-euler-k%02d-%s" % (k, "dense" if dense else "nodense"), family="euler", N=2, where="event", k=k, exc="KeyboardInterrupt",
+                            dense=dense, budget=b))
     # a terminal event is found and the rhs raises while the step is re-taken up to it (events oracle; real event section of integrate)
     for fam in (("euler",) if quick else ("euler", "rk4")):
         for j in ((0,) if quick else (0, 1, 2)):
@@ -516,9 +522,13 @@ def _event_fault(c, inst):
         return
     c.case()
     c.note("rows_at_fault", len(A.t))
-    c.check("c12.event.raises_FailedIntegration_with_cause", st == "exc" and isinstance(r, FailedIntegration) and r.__cause__ is exc,
-            info=dict(st=st, r=repr(r), cause=repr(getattr(r, "__cause__", None))))
-    c.check("c12.event.status_reports_failure", "failed" in A.integration_status.lower() and not A.success)
+    if inst["exc"] == "KeyboardInterrupt":
+        c.check("c12.event.keyboard_interrupt_propagates_as_itself", st == "kbd" and r is exc, info=dict(st=st, r=repr(r)))
+        c.check("c12.event.status_reports_interrupt", "KeyboardInterrupt" in A.integration_status and not A.success)
+    else:
+        c.check("c12.event.raises_FailedIntegration_with_cause", st == "exc" and isinstance(r, FailedIntegration) and r.__cause__ is exc,
+                info=dict(st=st, r=repr(r), cause=repr(getattr(r, "__cause__", None))))
+        c.check("c12.event.status_reports_failure", "failed" in A.integration_status.lower() and not A.success)
     nA = len(A.t)
     s = -1 if backward else 1
     c.check("c12.event.rows_paired_and_monotone", len(A.t) == len(A.y) and c.all([c.eq(A.t[0], t0)] + [c.lt(0, s * (A.t[i + 1] - A.t[i])) for i in range(nA - 1)]))
